@@ -5,7 +5,7 @@
    Spec automaton written from the property text.  `es` ranges over ALL event lists. *)
 From Coq Require Import NArith List.
 From Rodbus Require Import Model.Retry Spec.Lifecycle Spec.ClientSpec Gen.SessionErrors Model.ClientTask Model.SerialTask
-  Proofs.ClientBase Proofs.C13Proofs Proofs.C13Live Proofs.C13Serial.
+  Proofs.ClientBase Proofs.C13Proofs Proofs.C13Live Proofs.C13Serial Proofs.C13Wait.
 Import ListNotations.
 Local Open Scope N_scope.
 
@@ -87,6 +87,51 @@ Print Assumptions C13_disable_closes.
 Theorem C13_disable_waits_for_transaction : forall cfg s r tx d, ph s = PInFlight r tx d -> step cfg s EvRecv = (s, []).
 Proof. exact c13_disable_waits. Qed.
 Print Assumptions C13_disable_waits_for_transaction.
+
+(* --- the wait states end exactly at wait_start + delay ---
+   PWaiting u carries the deadline u = (instant the listener was told) + (announced delay).  Whatever
+   happens in a wait state - requests failed fast, redundant enables, decode-level changes, submissions,
+   the clock advancing - the phase and its deadline stay as they are; the state is left only by the end
+   of the task, by a disable, or by its own timer at or after the deadline ... *)
+Theorem C13_wait_deadline_unchanged : forall cfg s u e, ph s = PWaiting u ->
+  let s' := fst (step cfg s e) in
+  ph s' = PWaiting u \/ left_early s' \/ (e = EvTimer /\ fire cfg u <= now s).
+Proof. exact wait_step. Qed.
+Print Assumptions C13_wait_deadline_unchanged.
+
+(* ... in particular handling a command: a client polled faster than the retry delay still reconnects *)
+Theorem C13_wait_command_keeps_deadline : forall cfg s u c q, ph s = PWaiting u -> enabled s = true -> queue s = c :: q ->
+  (exists r, c = CReq r) \/ c = CEnable \/ (exists l, c = CDecode l) ->
+  ph (fst (step cfg s EvRecv)) = PWaiting u.
+Proof. exact wait_command_keeps_deadline. Qed.
+Print Assumptions C13_wait_command_keeps_deadline.
+
+(* ... over whole runs (ALL event lists): still the same wait with the same deadline, or a first step
+   left it for one of the three reasons ... *)
+Theorem C13_wait_run : forall cfg es s u, ph s = PWaiting u ->
+  ph (fst (run cfg s es)) = PWaiting u \/
+  exists es1 e es2, es = (es1 ++ e :: es2)%list /\
+    let s1 := fst (run cfg s es1) in ph s1 = PWaiting u /\
+    (left_early (fst (step cfg s1 e)) \/ (e = EvTimer /\ fire cfg u <= now s1)).
+Proof. exact wait_run. Qed.
+Print Assumptions C13_wait_run.
+
+(* ... and the timer does end it: nothing before fires_at(u), the next Connecting + dial from then on *)
+Theorem C13_wait_ends_at_deadline : forall cfg s u, ph s = PWaiting u -> enabled s = true ->
+  step cfg s EvTimer = if fire cfg u <=? now s then (set_ph s PConnecting, [OListen LConnecting; ODial]) else (s, []).
+Proof. exact wait_timer. Qed.
+Print Assumptions C13_wait_ends_at_deadline.
+
+(* non-vacuity: six commands 3 apart during a 20 wait; the reconnect is at 20, not at 18 + 20 *)
+Example C13_wait_nonvacuous :
+  let cfg := {| cfg_cap := 4; cfg_res := 1 |} in
+  let poll := [EvTick 3; EvSubmit CEnable SFuture; EvRecv; EvTimer] in
+  listens_of (snd (run cfg (init 1 None 20 40)
+     ([EvSubmit CEnable SFuture; EvRecv; EvConnect false] ++ poll ++ poll ++ poll ++ poll ++ poll ++ poll ++ [EvTick 1; EvTimer; EvTick 1; EvTimer])))
+  = [LConnecting; LWaitFailed 20; LConnecting] /\
+  now (fst (run cfg (init 1 None 20 40)
+     ([EvSubmit CEnable SFuture; EvRecv; EvConnect false] ++ poll ++ poll ++ poll ++ poll ++ poll ++ poll ++ [EvTick 1; EvTimer; EvTick 1; EvTimer]))) = 20.
+Proof. vm_compute. split; reflexivity. Qed.
 
 (* --- serial channels (PortState) ---
    The serial task (Model/SerialTask.v) is the same outer loop with the port opened synchronously:
